@@ -11,15 +11,6 @@ open Gen.Demes
 
 /-! ### epochs, scaling of a graph -/
 
-/-- the part of a resolved demes epoch the conversion reads -/
-structure Epoch where
-  fn : SizeFn
-  ss : Rat
-  es : Rat
-  st : ETime
-  et : ETime
-deriving Repr
-
 /-- demes `Epoch.time_span` = start_time - end_time (infinite for the root epoch; never used there, see `sizesAt`) -/
 def Epoch.span (e : Epoch) : Rat := tval e.st - tval e.et
 
@@ -80,11 +71,7 @@ def endTimes : List Rat → List Rat
 /-! ### `DemesUtil.slice`: epochs of one deme -/
 
 /-- `_shift_deme_time`: the loop `for e in v:` over the epochs of a deme, `st` = its start time -/
-def shiftEpochs (t : Rat) : ETime → List InEpoch → List OutEpoch
-  | _, [] => []
-  | st, e :: rest =>
-      let r := shiftStep t st e
-      if r.2.2 then [r.1] else r.1 :: shiftEpochs t r.2.1 rest
+def shiftEpochs (t : Rat) : ETime → List InEpoch → List OutEpoch := loopBreak (shiftStep t)
 
 /-- what slicing at `t` must give: epochs older than `t` keep their sizes and are shifted; the epoch that contains `t` ends at 0
     with the size its own size function has at `t` — interpolated between its ORIGINAL start (the previous epoch's original end,
@@ -94,6 +81,213 @@ def sliceSpec (t : Rat) : ETime → List InEpoch → List OutEpoch
   | st, e :: rest =>
       if e.et ≤ t then [{ fn := e.fn, ss := e.ss, es := sliceSizeAt e.fn t e.ss e.es st e.et, et := 0 }]
       else { fn := e.fn, ss := e.ss, es := some (Sym.r e.es), et := e.et - t } :: sliceSpec t (some e.et) rest
+
+/-! ### graph level (round 4): the import of a whole graph as a table of integration rows and events
+
+`Generated/Demes.lean` holds the translated pieces (`migRateStep`, `epochSearch`, `freezeFlags`, `demePresent`, `marginalizeCond`,
+`sliceGraph`, `augment`, `sfsPrepare`); here they are composed the way `_get_demographic_events`, `_get_integration_parameters` and
+`_compute_sfs` compose them.  The `demes` library itself (resolution, `discrete_demographic_events`) is not modelled: the list of
+split / branch / merge / admix / pulse events is an input (`lib`). -/
+
+/-- `_migration_rate_in_interval(g, source, dest, interval)`: the loop over `g.migrations` (no `break`: the last match wins) -/
+def migRate (migs : List GMig) (source dest : DName) (i0 i1 : ETime) : Rat :=
+  migs.foldl (fun r m => migRateStep r m source dest i0 i1) migRateInit
+
+/-- the epochs of a deme as demes `Epoch` objects: each knows its start time (the previous epoch's end, or the deme's start) -/
+def epochsOf : ETime → List InEpoch → List Epoch
+  | _, [] => []
+  | st, e :: rest => { fn := e.fn, ss := e.ss, es := e.es, st := st, et := some e.et } :: epochsOf (some e.et) rest
+
+/-- `g[d].end_time` -/
+def GDeme.endTime (d : GDeme InEpoch) : ETime :=
+  match d.epochs.getLast? with
+  | some e => some e.et
+  | none => d.start
+
+/-- `_sizes_at_time(g, deme_id, interval)`: epoch search, then the sizes on the interval -/
+def demeSizes (d : GDeme InEpoch) (i0 i1 : ETime) : Option (SizeFn × Sym × Sym) :=
+  match epochSearch (epochsOf d.start d.epochs) i0 i1 with
+  | none => none
+  | some e => (epochSizes e i0 i1).map fun p => (e.fn, p.1, p.2)
+
+/-- insertion into a strictly descending list of times (`break_points` is a set) -/
+def insDesc (x : ETime) : List ETime → List ETime
+  | [] => [x]
+  | y :: ys => if teq x y then y :: ys else if tge x y then x :: y :: ys else y :: insDesc x ys
+
+/-- the distinct times in descending order -/
+def sortDesc (l : List ETime) : List ETime := l.foldr insDesc []
+
+def breakPoints (g : Graph InEpoch) : List ETime :=
+  (g.demes.flatMap fun d => (epochsOf d.start d.epochs).flatMap fun e => [e.st, e.et])
+    ++ g.pulses.map (fun p => some p.time) ++ g.migs.flatMap fun m => [m.st, some m.et]
+
+/-- `integration_times`: consecutive pairs of the descending break points -/
+def intervals (g : Graph InEpoch) : List (ETime × ETime) :=
+  let s := sortDesc (breakPoints g)
+  s.zip s.tail
+
+/-- demes by descending start time, graph order within one start time (`deme_start_times`) -/
+def insByStart (d : GDeme InEpoch) : List (GDeme InEpoch) → List (GDeme InEpoch)
+  | [] => [d]
+  | x :: xs => if tge x.start d.start then x :: insByStart d xs else d :: x :: xs
+
+def orderDemes (ds : List (GDeme InEpoch)) : List (GDeme InEpoch) := ds.foldl (fun acc d => insByStart d acc) []
+
+/-- `demes_present[interval]` -/
+def liveIn (g : Graph InEpoch) (i0 i1 : ETime) : List (GDeme InEpoch) :=
+  (orderDemes g.demes).filter fun d => demePresent d.start d.endTime i0 i1
+
+/-- `sorted(demes_present.items())[::-1]`: only intervals in which some deme lives are keys of the dict -/
+def demesPresent (g : Graph InEpoch) : List ((ETime × ETime) × List (GDeme InEpoch)) :=
+  (intervals g).filterMap fun iv =>
+    let l := liveIn g iv.1 iv.2
+    if l.isEmpty then none else some (iv, l)
+
+/-- `_get_root_Ne` -/
+def rootNe (g : Graph InEpoch) : Option Rat :=
+  match g.demes.find? (fun d => d.ancestors.isEmpty) with
+  | none => none
+  | some d => d.epochs.head?.map (·.ss)
+
+/-- the migration matrix of an interval: `M[to][from] = 2 Ne m(from -> to)` (position by `migRowIsDest`) -/
+def migMatrix (migs : List GMig) (live : List DName) (i0 i1 : ETime) (Ne : Rat) : List (List Rat) :=
+  live.map fun rowD => live.map fun colD =>
+    if rowD == colD then 0 else
+    if migRowIsDest then migEntry Ne (migRate migs colD rowD i0 i1) else migEntry Ne (migRate migs rowD colD i0 i1)
+
+/-- one pass of the loop of `_get_integration_parameters` -/
+structure PlanRow where
+  T : Rat
+  live : List DName
+  frozen : List Bool
+  M : List (List Rat)
+  /-- every live deme is constant on the interval: `nu_func` is a list of numbers -/
+  allConst : Bool
+deriving Repr, DecidableEq
+
+def planRow (g : Graph InEpoch) (frozenList : List DName) (Ne : Rat) (iv : ETime × ETime) (live : List (GDeme InEpoch)) : PlanRow :=
+  { T := intTime iv.1 iv.2 Ne
+    live := live.map (·.name)
+    frozen := freezeFlags frozenList (live.map (·.name))
+    M := migMatrix g.migs (live.map (·.name)) iv.1 iv.2 Ne
+    allConst := live.all fun d => match demeSizes d iv.1 iv.2 with
+      | some (fn, _, _) => fn == SizeFn.constant
+      | none => false }
+
+/-- `_get_integration_parameters`: integration times, frozen flags, migration matrices, oldest interval first -/
+def plan (g : Graph InEpoch) (frozenList : List DName) (Ne : Rat) : List PlanRow :=
+  (demesPresent g).map fun p => planRow g frozenList Ne p.1 p.2
+
+/-- `nu_funcs[k]` evaluated at the fraction `frac` of the k-th integration time (`t = frac * T`): one (possibly unbound) size
+    term per live deme -/
+def planNu (g : Graph InEpoch) (Ne frac : Rat) : List (List (Option Sym)) :=
+  (demesPresent g).map fun p =>
+    let allc := (planRow g [] Ne p.1 p.2).allConst
+    let T := intTime p.1.1 p.1.2 Ne
+    p.2.map fun d => match demeSizes d p.1.1 p.1.2 with
+      | none => none
+      | some (fn, a, b) => nuFn fn allc a b Ne T (frac * T)
+
+/-- `demo_events`: the library's events (in the order pulses, branches, mergers, admixtures, splits) followed by the marginalisations -/
+def demoEvents (g : Graph InEpoch) (lib : List (Rat × DEvt)) (sampled : List DName) : List (ETime × DEvt) :=
+  lib.map (fun p => (some p.1, p.2)) ++
+  g.demes.filterMap fun d =>
+    let succStarts := (g.demes.filter fun x => x.ancestors.contains d.name).map (·.start)
+    if marginalizeCond sampled d.name d.endTime succStarts then some (d.endTime, DEvt.marginalize d.name) else none
+
+/-- `demo_events[time]` -/
+def eventsAt (evs : List (ETime × DEvt)) (time : ETime) : List DEvt :=
+  (evs.filter fun p => teq p.1 time).map (·.2)
+
+/-- how `_apply_event` updates `pop_ids` (`none`: the code raises) -/
+def applyEventIds (ids : List DName) : DEvt → Option (List DName)
+  | DEvt.marginalize d => if ids.contains d then some (ids.erase d) else none
+  | DEvt.split p cs =>
+      if !ids.contains p then none else
+      match cs with
+      | [c] => some (ids.map fun x => if x == p then c else x)
+      | [c1, c2] => some ((ids.map fun x => if x == p then c1 else x) ++ [c2])
+      | _ => none
+  | DEvt.branch p c => if ids.contains p then some (ids ++ [c]) else none
+  | DEvt.admix ps _ c => if ids.contains c || !(ps.all ids.contains) then none else some (ids ++ [c])
+  | DEvt.merge ps _ c => if ids.contains c || !(ps.all ids.contains) then none else some (ps.foldl (fun l p => l.erase p) (ids ++ [c]))
+  | DEvt.pulses ss d _ => if ids.contains d && ss.all ids.contains then some ids else none
+
+/-- what `_compute_sfs` does, as a list of calls -/
+inductive Step
+  | integrate (row : PlanRow)
+  | event (ids : List DName) (e : DEvt)
+  | reorder (order : List Nat)
+  | fail
+deriving Repr, DecidableEq
+
+def newOrderN (current wanted : List DName) : List Nat := wanted.map fun p => current.idxOf p + 1
+
+/-- population on each axis after `reorder_pops(phi, order)` -/
+def applyOrderN (current : List DName) (order : List Nat) : List DName :=
+  order.filterMap fun n => current[n - 1]?
+
+/-- the events of one instant applied in turn to `pop_ids`: the ids afterwards (`none`: the code raises) and the calls made -/
+def applyEvents (ids : List DName) (es : List DEvt) : Option (List DName) × List Step :=
+  es.foldl (fun (acc : Option (List DName) × List Step) e =>
+      match acc.1 with
+      | none => acc
+      | some cur => (applyEventIds cur e, acc.2 ++ [Step.event cur e])) (some ids, [])
+
+/-- the loop of `_compute_sfs` over the rows (each with its interval's end time and the next interval's live demes): the calls made and
+    `pop_ids` at the end (`none`: an event could not be applied) -/
+def importLoop (evs : List (ETime × DEvt)) : List DName → List (PlanRow × ETime × List DName) → List Step × Option (List DName)
+  | ids, [] => ([], some ids)
+  | ids, (row, i1, next) :: rest =>
+      let s1 := if row.T > 0 then [Step.integrate { row with live := ids }] else []
+      let r := applyEvents ids (eventsAt evs i1)
+      match r.1 with
+      | none => (s1 ++ r.2, none)
+      | some cur =>
+          if tle i1 (some 0) then
+            let k := importLoop evs cur rest
+            (s1 ++ r.2 ++ k.1, k.2)
+          else if cur == next then
+            let k := importLoop evs next rest
+            (s1 ++ r.2 ++ k.1, k.2)
+          else
+            let k := importLoop evs next rest
+            (s1 ++ r.2 ++ [Step.reorder (newOrderN cur next)] ++ k.1, k.2)
+
+/-- the rows of the plan with what the loop of `_compute_sfs` reads besides: the end of the interval, the demes of the next one -/
+def loopRows (g : Graph InEpoch) (frozenList : List DName) (Ne : Rat) : List (PlanRow × ETime × List DName) :=
+  let dp := demesPresent g
+  let nexts := (dp.map fun p => p.2.map (·.name)).tail ++ [[]]
+  (plan g frozenList Ne).zip ((dp.map fun p => p.1.2).zip nexts)
+
+def firstIds (g : Graph InEpoch) : List DName :=
+  match (demesPresent g).head? with
+  | some p => p.2.map (·.name)
+  | none => []
+
+/-- `SFS` after the preparation: every call of `_compute_sfs` and, last, the final `reorder_pops(phi, new_order)` of `SFS` -/
+def importSteps (g : Graph InEpoch) (lib : List (Rat × DEvt)) (sampled frozenList : List DName) (Ne : Rat) : List Step :=
+  let r := importLoop (demoEvents g lib sampled) (firstIds g) (loopRows g frozenList Ne)
+  match r.2 with
+  | some ids => r.1 ++ [Step.reorder (newOrderN ids sampled)]
+  | none => r.1 ++ [Step.fail]
+
+/-! ### the same history in other units -/
+
+/-- times multiplied by `a`, sizes by `b`, migration rates divided by `b` (`a = b = c`: another reference size; `b = 1`: another time unit) -/
+def InEpoch.rescale (a b : Rat) (e : InEpoch) : InEpoch := { fn := e.fn, ss := b * e.ss, es := b * e.es, et := a * e.et }
+
+def GDeme.rescale (a b : Rat) (d : GDeme InEpoch) : GDeme InEpoch :=
+  { name := d.name, start := tscale a d.start, ancestors := d.ancestors, proportions := d.proportions, epochs := d.epochs.map (InEpoch.rescale a b) }
+
+def GMig.rescale (a b : Rat) (m : GMig) : GMig :=
+  { source := m.source, dest := m.dest, sym := m.sym, rate := m.rate / b, st := tscale a m.st, et := a * m.et }
+
+def GPulse.rescale (a : Rat) (p : GPulse) : GPulse := { sources := p.sources, dest := p.dest, props := p.props, time := a * p.time }
+
+def Graph.rescale (a b : Rat) (g : Graph InEpoch) : Graph InEpoch :=
+  { demes := g.demes.map (GDeme.rescale a b), migs := g.migs.map (GMig.rescale a b), pulses := g.pulses.map (GPulse.rescale a) }
 
 /-! ### expected wiring (specifications as Boolean predicates over the generated tables) -/
 
@@ -143,7 +337,23 @@ def splitRowOk (r : SplitRow) : Bool :=
        && (r.fn == newPopName r.npop || (r.npop == 2 && r.fn == (if r.parent == 0 then "phi_2D_to_3D_split_1" else "phi_2D_to_3D_split_2")))
 
 def admixNewRowOk (r : AdmixNewRow) : Bool :=
-  r.fn == newPopName r.npop && r.slots == List.range (r.npop - 1)
+  r.fn == newPopName r.npop && r.slots == List.range (r.npop - 1) && r.sorted
+
+/-- the proportion arguments `_admix_new_pop_phi` passes to the constructor of its branch, for parents on the axes `src` (in the
+    order of the graph's `ancestors`) with proportions `props` -/
+def admixArgs (r : AdmixNewRow) (src : List Nat) (props : List Rat) : List Rat :=
+  r.slots.map fun k => (if r.sorted then sortedProps r.npop src props none else props).getD k 0
+
+/-- … and `_admix_phi` to the pulse function of its branch and destination -/
+def pulseArgs (r : PulseRow) (src : List Nat) (props : List Rat) : List Rat :=
+  r.slots.map fun k => (if r.sorted then sortedProps r.npop src props (some r.dest) else props).getD k 0
+
+/-- the share of its ancestry a new / pulsed deme draws from the population on axis `j`: the proportion of the ancestor that sits
+    on that axis, 0 if none does -/
+def axisProp (src : List Nat) (props : List Rat) (j : Nat) : Rat :=
+  match (src.zip props).find? (fun p => p.1 == j) with
+  | some p => p.2
+  | none => 0
 
 /-- a pulse function receives the sorted list (destination removed) in order; with two populations the single raw
     proportion is the same thing -/
